@@ -14,49 +14,43 @@ Lemma pstr_eqb_refl a : pstr_eqb a a = true.
 Proof. now apply pstr_eqb_eq. Qed.
 
 (* ------------------------------------------------- symmetry of a phase *)
-Fixpoint asciib (s : pystr) : bool :=
-  match s with [] => true | c :: r => (0 <? c) && (c <? 128) && asciib r end.
-Lemma asciib_sound s : asciib s = true -> ascii_str s.
+(* decidable form of ustr (Unicode scalar values, no NUL) *)
+Fixpoint ustrb (s : pystr) : bool :=
+  match s with
+  | [] => true
+  | c :: r => (0 <? c) && (c <? 1114112) && negb ((55296 <=? c) && (c <? 57344)) && ustrb r
+  end.
+Lemma ustrb_sound s : ustrb s = true -> ustr s.
 Proof.
-  unfold ascii_str. induction s as [|c s IH]; [constructor|]. simpl. intros H. apply andb_prop in H. destruct H as [H H2].
-  apply andb_prop in H. destruct H as [Ha Hb]. apply Z.ltb_lt in Ha. apply Z.ltb_lt in Hb.
-  constructor; [lia|exact (IH H2)].
+  unfold ustr. induction s as [|c s IH]; [constructor|]. simpl. intros H. apply andb_prop in H. destruct H as [H H2].
+  apply andb_prop in H. destruct H as [H Hs]. apply andb_prop in H. destruct H as [Ha Hb].
+  apply Z.ltb_lt in Ha. apply Z.ltb_lt in Hb. apply negb_true_iff, andb_false_iff in Hs.
+  constructor; [|exact (IH H2)]. split; [lia|]. destruct Hs as [Hs|Hs]; [apply Z.leb_gt in Hs|apply Z.ltb_ge in Hs]; lia.
 Qed.
 
 Definition not_none (g : pystr) : bool := negb (pstr_eqb g (s2p "None")).
 (* decidable condition on the observable (space group, point group) of a phase
-   under which Phase(space_group, point_group-name) rebuilds the same pair *)
+   under which the reader's Phase(...) rebuilds the same pair: with a space group
+   the point group is the derived one (class invariant of Phase); without, the
+   stored name must resolve to itself *)
 Definition sym_ok (sg : option Z) (pg : option pystr) : bool :=
   match sg, pg with
-  | Some n, Some g =>
-      sg_valid n && pstr_eqb g (sg2pg n) && asciib g && not_none g
-      && match pg_resolve g with Some g' => pstr_eqb (sg2pg n) g' | None => false end
+  | Some n, Some g => sg_valid n && pstr_eqb g (sg2pg n)
   | None, Some g =>
-      asciib g && not_none g && match pg_resolve g with Some g' => pstr_eqb g g' | None => false end
+      ustrb g && not_none g && match pg_resolve g with Some g' => pstr_eqb g g' | None => false end
   | None, None => true
   | Some _, None => false
   end.
+(* the point group dict2phase passes to Phase(): none when there is a space group *)
+Definition reader_pg (sg : option Z) (pg : option pystr) : option pystr :=
+  match sg with Some _ => None | None => pg end.
 
-Definition sg_range : list Z := map Z.of_nat (seq 1 230).
-Lemma sg_range_in n : 1 <= n <= 230 -> In n sg_range.
+(* all 230 space groups, the monoclinic ones (3..9, point groups named "2" and "m") included *)
+Lemma sym_ok_spacegroups n : 1 <= n <= 230 -> sym_ok (Some n) (Some (sg2pg n)) = true.
 Proof.
-  intros H. unfold sg_range. apply in_map_iff. exists (Z.to_nat n). split; [lia|]. apply in_seq. lia.
-Qed.
-
-(* all 230 space groups except the monoclinic 3..9 *)
-Lemma sym_ok_spacegroups n : 1 <= n <= 230 -> ~ (3 <= n <= 9) -> sym_ok (Some n) (Some (sg2pg n)) = true.
-Proof.
-  intros H Hn.
-  assert (A : forallb (fun n => ((3 <=? n) && (n <=? 9)) || sym_ok (Some n) (Some (sg2pg n))) sg_range = true)
-    by (vm_compute; reflexivity).
-  rewrite forallb_forall in A. specialize (A n (sg_range_in n H)).
-  apply orb_prop in A. destruct A as [A|A]; [|exact A]. apply andb_prop in A. destruct A as [A1 A2].
-  apply Z.leb_le in A1, A2. lia.
-Qed.
-Lemma sym_ok_monoclinic_false n : 3 <= n <= 9 -> sym_ok (Some n) (Some (sg2pg n)) = false.
-Proof.
-  intros H. assert (n = 3 \/ n = 4 \/ n = 5 \/ n = 6 \/ n = 7 \/ n = 8 \/ n = 9) as D by lia.
-  destruct D as [->|[->|[->|[->|[->|[->| ->]]]]]]; vm_compute; reflexivity.
+  intros H. unfold sym_ok, sg_valid. rewrite pstr_eqb_refl.
+  replace (1 <=? n) with true by (symmetry; apply Z.leb_le; lia).
+  replace (n <=? 230) with true by (symmetry; apply Z.leb_le; lia). reflexivity.
 Qed.
 (* all 38 named point groups of symmetry._groups, without a space group *)
 Lemma sym_ok_pointgroups g : In g pg_names -> sym_ok None (Some (s2p g)) = true.
@@ -178,126 +172,159 @@ Variable fresh : list pystr -> nat -> phase (T:=T).
 Notation mk_phase := (mk_phase ccanon restruct).
 Notation ni_phase := (ni_phase O ccanon restruct).
 
-(* Phase(name, sg, pg, structure, color) on observable attributes that satisfy sym_ok *)
+(* Phase(name, sg, pg, structure, color) as the reader calls it, on observable
+   attributes that satisfy sym_ok *)
 Lemma mk_phase_ok name sg pg st col :
   sym_ok sg pg = true ->
-  mk_phase name sg pg st col = Some (mkPhase name sg pg (ccanon col) (restruct st)).
+  mk_phase name sg (reader_pg sg pg) st col = Some (mkPhase name sg pg (ccanon col) (restruct st)).
 Proof.
-  unfold sym_ok, C13Map.mk_phase. destruct sg as [n|], pg as [g|]; try discriminate; try reflexivity.
-  - intros H. apply andb_prop in H. destruct H as [H He]. apply andb_prop in H. destruct H as [H Hd].
-    apply andb_prop in H. destruct H as [H Hc]. apply andb_prop in H. destruct H as [Ha Hb].
-    cbv beta iota. rewrite Ha.
-    destruct (pg_resolve g) as [g'|]; [|discriminate].
-    apply pstr_eqb_eq in He. subst g'. apply pstr_eqb_eq in Hb. subst g.
-    rewrite pstr_eqb_refl. reflexivity.
+  unfold sym_ok, reader_pg, C13Map.mk_phase. destruct sg as [n|], pg as [g|]; try discriminate; try reflexivity.
+  - intros H. apply andb_prop in H. destruct H as [Ha Hb].
+    cbv beta iota. rewrite Ha. apply pstr_eqb_eq in Hb. subst g. reflexivity.
   - intros H. apply andb_prop in H. destruct H as [H He].
     cbv beta iota.
     destruct (pg_resolve g) as [g'|]; [|discriminate]. apply pstr_eqb_eq in He. now subst g'.
 Qed.
 
-(* space group 3 (P2): the stored point-group name "2" is an alias of "2/m" *)
-Lemma mk_phase_sg3_refuted name st col :
-  mk_phase name (Some 3) (Some (sg2pg 3)) st col
-  = Some (mkPhase name None (Some (s2p "2/m")) (ccanon col) (restruct st)).
+(* the repaired monoclinic cases, explicitly: space group 3 (P2, point group "2",
+   an alias of "2/m" in point_group_aliases) and 6 (Pm, point group "m", no name
+   in _groups) are rebuilt from the space group alone *)
+Lemma mk_phase_sg3 name st col :
+  mk_phase name (Some 3) None st col = Some (mkPhase name (Some 3) (Some (s2p "2")) (ccanon col) (restruct st)).
 Proof. reflexivity. Qed.
-(* space group 6 (Pm): the stored point-group name "m" is no group name: ValueError *)
-Lemma mk_phase_sg6_refuted name st col : mk_phase name (Some 6) (Some (sg2pg 6)) st col = None.
+Lemma mk_phase_sg6 name st col :
+  mk_phase name (Some 6) None st col = Some (mkPhase name (Some 6) (Some (s2p "m")) (ccanon col) (restruct st)).
 Proof. reflexivity. Qed.
 
 
 (* ------------------------------------------------------------------ atoms *)
 Definition wf_atom (a : atom (T:=T)) : Prop :=
-  ascii_str (at_element a) /\ ascii_str (at_label a) /\
+  ustr (at_element a) /\ ustr (at_label a) /\
   (alen (at_xyz a) <> 1)%nat /\ (alen (at_U a) <> 1)%nat.
 
 Ltac nd := apply nodupb_sound; reflexivity.
 
 Lemma atom_rt a : wf_atom a -> dict2atom (rd (atom2dict a)) = Some a.
 Proof.
-  intros (He & Hl & Hx & HU). unfold atom2dict. cbn [rd map fst snd].
+  intros (He & Hl & Hx & HU). unfold atom2dict. cbn [rd flat_map List.app fst snd].
   unfold dict2atom, getS, getA. rewrite !lookup_sortk by nd. cbn [lookup String.eqb Ascii.eqb Bool.eqb].
-  rewrite (str_roundtrip_ascii _ He), (str_roundtrip_ascii _ Hl), (unwrap_id _ Hx), (unwrap_id _ HU).
+  rewrite (str_roundtrip _ He), (str_roundtrip _ Hl), (unwrap_id _ Hx), (unwrap_id _ HU).
   destruct a; reflexivity.
 Qed.
 
 Definition atoms_dict (ats : list (atom (T:=T))) : list (string * rv T) :=
   map (fun ia => (zstr (fst ia), rd (atom2dict (snd ia)))) (enum_from 0 ats).
 
-Lemma atoms_keys_sorted (ats : list (atom (T:=T))) :
-  (List.length ats <= 10)%nat -> ksorted (map fst (atoms_dict ats)) = true.
+Lemma enum_from_sorted {A} i (l : list A) : StronglySorted Z.lt (map fst (enum_from i l)).
 Proof.
-  intros H. unfold atoms_dict.
-  do 11 (destruct ats as [|? ats]; [reflexivity|]). simpl in H. lia.
+  revert i. induction l as [|a l IH]; intros i; simpl; [constructor|]. constructor; [apply IH|].
+  assert (G : forall j, i < j -> Forall (Z.lt i) (map fst (enum_from j l))).
+  { clear. induction l as [|a l IH]; intros j Hj; simpl; constructor; [exact Hj|]. apply IH. lia. }
+  apply G. lia.
+Qed.
+Lemma enum_from_snd {A} i (l : list A) : map snd (enum_from i l) = l.
+Proof. revert i. induction l as [|a l IH]; intros i; simpl; [reflexivity|]. now rewrite IH. Qed.
+
+Lemma all_some_map_in {A B} (F : A -> option B) (h : A -> B) l :
+  (forall x, In x l -> F x = Some (h x)) -> all_some (map F l) = Some (map h l).
+Proof.
+  induction l as [|a l IH]; intros H; [reflexivity|]. simpl. rewrite (H a) by now left.
+  rewrite IH; [reflexivity|]. intros; apply H; now right.
 Qed.
 
-Lemma atoms_unsorted_rt i ats : Forall wf_atom ats ->
-  all_some (map (fun kv : string * rv T => dict2atom (snd kv))
-                (map (fun ia => (zstr (fst ia), rd (atom2dict (snd ia)))) (enum_from i ats))) = Some ats.
+(* the reader's atom pipeline on the name-ordered listing of the "atoms" group *)
+Definition read_atoms (ad : dict (rv T)) : option (list atom) :=
+  match all_some (map (fun kv : string * rv T => match zint (fst kv), dict2atom (snd kv) with
+                                               | Some i, Some a => Some (i, a) | _, _ => None end) ad) with
+  | Some l => Some (map snd (sortz l))
+  | None => None
+  end.
+
+(* atoms come back in the order they were written, whatever their number: the
+   links "0", "1", "10", "11", "2", ... are listed in name order, the reader
+   sorts them by int(key) *)
+Lemma atoms_rt ats : Forall wf_atom ats -> read_atoms (sortk (atoms_dict ats)) = Some ats.
 Proof.
-  intros H. revert i. induction H as [|a ats Ha _ IH]; intros i; [reflexivity|].
-  cbn [map enum_from fst snd]. rewrite (atom_rt a Ha). cbn [all_some]. rewrite IH. reflexivity.
+  intros Hwf. unfold read_atoms, atoms_dict.
+  set (K := map (fun ia : Z * atom => (zstr (fst ia), ia)) (enum_from 0 ats)).
+  replace (map (fun ia : Z * atom => (zstr (fst ia), rd (atom2dict (snd ia)))) (enum_from 0 ats))
+    with (map (fun kv : string * (Z * atom) => (fst kv, rd (atom2dict (snd (snd kv))))) K)
+    by (unfold K; rewrite map_map; reflexivity).
+  rewrite (sortk_map (fun ia : Z * atom => rd (atom2dict (snd ia)))).
+  rewrite map_map. cbn [fst snd].
+  rewrite (all_some_map_in _ snd).
+  - f_equal. transitivity (map snd (enum_from 0 ats)); [|apply enum_from_snd]. f_equal.
+    apply sortz_of_perm; [apply enum_from_sorted|].
+    rewrite (Permutation_map snd (sortk_perm K)). unfold K. rewrite map_map. cbn [snd]. now rewrite map_id.
+  - intros [k ia] Hin. apply (Permutation_in _ (sortk_perm K)) in Hin. unfold K in Hin.
+    apply in_map_iff in Hin. destruct Hin as [ia' [E Hin]]. inversion E; subst. cbn [fst snd].
+    rewrite zint_zstr. rewrite Forall_forall in Hwf.
+    rewrite (atom_rt (snd ia)).
+    + now destruct ia.
+    + apply Hwf. rewrite <- (enum_from_snd 0 ats). now apply in_map.
 Qed.
 
-(* up to ten atoms come back in the order they were written ... *)
-Lemma atoms_rt ats : (List.length ats <= 10)%nat -> Forall wf_atom ats ->
-  all_some (map (fun kv : string * rv T => dict2atom (snd kv)) (sortk (atoms_dict ats))) = Some ats.
-Proof.
-  intros Hn H. rewrite (sortk_sorted _ (atoms_keys_sorted ats Hn)). apply atoms_unsorted_rt, H.
-Qed.
-
-(* ... with eleven, the link "10" is listed before "2": atom 10 comes back in third place *)
-Lemma atoms_order_refuted (a : atom (T:=T)) :
+(* the regression witness of the repaired defect: with eleven atoms the link
+   "10" is still listed before "2" ... *)
+Lemma atoms_listing_11 (a : atom (T:=T)) :
   map fst (sortk (atoms_dict (repeat a 11)))
   = ["0"; "1"; "10"; "2"; "3"; "4"; "5"; "6"; "7"; "8"; "9"]%string.
 Proof. reflexivity. Qed.
 
 (* ----------------------------------------------------------------- phases *)
 Definition wf_phase (p : phase (T:=T)) : Prop :=
-  ascii_str (ph_name p) /\ ascii_str (ph_color p) /\ ccanon (ph_color p) = ph_color p /\
+  ustr (ph_name p) /\ ustr (ph_color p) /\ ccanon (ph_color p) = ph_color p /\
   sym_ok (ph_sg p) (ph_pg p) = true /\ restruct (ph_st p) = ph_st p /\
   (alen (l_abcABG (fst (ph_st p))) <> 1)%nat /\ (alen (l_baserot (fst (ph_st p))) <> 1)%nat /\
-  (List.length (snd (ph_st p)) <= 10)%nat /\ Forall wf_atom (snd (ph_st p)).
+  Forall wf_atom (snd (ph_st p)).
 
-Lemma none_str : latin1 (str_stored (s2p "None")) = s2p "None".
+Lemma none_str : decode_str (str_stored (s2p "None")) = s2p "None".
 Proof. reflexivity. Qed.
+
+Lemma atoms_not_PN i (ats : list (atom (T:=T))) :
+  forallb (fun kv : string * pv T => not_PN (snd kv))
+          (map (fun ia => (zstr (fst ia), atom2dict (snd ia))) (enum_from i ats)) = true.
+Proof. revert i. induction ats as [|a ats IH]; intros i; [reflexivity|]. simpl. apply IH. Qed.
 
 Lemma structure_rt st :
   (alen (l_abcABG (fst st)) <> 1)%nat -> (alen (l_baserot (fst st)) <> 1)%nat ->
-  (List.length (snd st) <= 10)%nat -> Forall wf_atom (snd st) ->
+  Forall wf_atom (snd st) ->
   match rd (structure2dict st) with RD d => dict2structure d | _ => None end = Some st.
 Proof.
-  intros Ha Hb Hn Hat. unfold structure2dict. cbn [rd map fst snd].
+  intros Ha Hb Hat. unfold structure2dict.
+  rewrite rd_PD_nn by reflexivity. cbn [map fst snd].
+  rewrite (rd_PD_nn [("abcABG"%string, _); _]) by reflexivity.
+  rewrite (rd_PD_nn (map _ _)) by apply atoms_not_PN. cbn [map fst snd rd].
   unfold dict2structure, getD. rewrite !lookup_sortk by nd. cbn [lookup String.eqb Ascii.eqb Bool.eqb].
   unfold getA. rewrite !lookup_sortk by nd. cbn [lookup String.eqb Ascii.eqb Bool.eqb].
   rewrite (unwrap_id _ Ha), (unwrap_id _ Hb).
-  rewrite map_map. cbn [fst snd]. fold (atoms_dict (snd st)). rewrite (atoms_rt _ Hn Hat).
+  rewrite map_map. cbn [fst snd]. fold (atoms_dict (snd st)).
+  pose proof (atoms_rt _ Hat) as Hr. unfold read_atoms in Hr.
+  destruct (all_some _) as [l|]; [|discriminate]. injection Hr as Hr. rewrite Hr.
   destruct st as [[? ?] ?]; reflexivity.
 Qed.
 
 Lemma phase_rt p : wf_phase p -> dict2phase ccanon restruct (rd (phase2dict p)) = Some p.
 Proof.
-  intros (Hn & Hc & Hcc & Hs & Hr & Ha & Hb & Hl & Hat).
-  unfold phase2dict. cbn [rd map fst snd]. unfold dict2phase, getD, getS.
+  intros (Hn & Hc & Hcc & Hs & Hr & Ha & Hb & Hat).
+  unfold phase2dict. rewrite rd_PD_nn by (destruct (ph_sg p), (ph_pg p); reflexivity).
+  cbn [map fst snd]. unfold dict2phase, getD, getS.
   rewrite !lookup_sortk by nd. cbn [lookup String.eqb Ascii.eqb Bool.eqb].
-  pose proof (structure_rt (ph_st p) Ha Hb Hl Hat) as Hst.
+  pose proof (structure_rt (ph_st p) Ha Hb Hat) as Hst.
   destruct (rd (structure2dict (ph_st p))) as [d| | | | |]; try discriminate. rewrite Hst.
-  rewrite (str_roundtrip_ascii _ Hn), (str_roundtrip_ascii _ Hc).
+  cbn [rd]. rewrite (str_roundtrip _ Hn), (str_roundtrip _ Hc).
   destruct p as [name sg pg col st]. cbn [ph_name ph_sg ph_pg ph_color ph_st] in *.
-  destruct sg as [n|], pg as [g|]; try discriminate Hs.
-  - cbn [rd]. assert (Hg : asciib g = true /\ not_none g = true).
-    { unfold sym_ok in Hs. apply andb_prop in Hs. destruct Hs as [Hs _]. apply andb_prop in Hs. destruct Hs as [Hs H2].
-      apply andb_prop in Hs. destruct Hs as [_ H1]. auto. }
-    destruct Hg as [Hg1 Hg2]. rewrite (str_roundtrip_ascii _ (asciib_sound _ Hg1)).
-    unfold not_none in Hg2. apply negb_true_iff in Hg2. rewrite Hg2.
-    rewrite (mk_phase_ok _ _ _ _ _ Hs), Hcc, Hr. reflexivity.
+  pose proof (mk_phase_ok name sg pg st col Hs) as Hmk.
+  destruct sg as [n|], pg as [g|]; try discriminate Hs; cbn [reader_pg] in Hmk.
+  - cbn [rd]. rewrite Hmk, Hcc, Hr. reflexivity.
   - cbn [rd]. rewrite none_str, pstr_eqb_refl.
-    assert (Hg : asciib g = true /\ not_none g = true).
+    assert (Hg : ustrb g = true /\ not_none g = true).
     { unfold sym_ok in Hs. apply andb_prop in Hs. destruct Hs as [Hs _]. apply andb_prop in Hs. tauto. }
-    destruct Hg as [Hg1 Hg2]. rewrite (str_roundtrip_ascii _ (asciib_sound _ Hg1)).
+    destruct Hg as [Hg1 Hg2]. rewrite (str_roundtrip _ (ustrb_sound _ Hg1)).
     unfold not_none in Hg2. apply negb_true_iff in Hg2. rewrite Hg2.
-    rewrite (mk_phase_ok _ _ _ _ _ Hs), Hcc, Hr. reflexivity.
+    rewrite Hmk, Hcc, Hr. reflexivity.
   - cbn [rd]. rewrite none_str, pstr_eqb_refl.
-    rewrite (mk_phase_ok _ _ _ _ _ Hs), Hcc, Hr. reflexivity.
+    rewrite Hmk, Hcc, Hr. reflexivity.
 Qed.
 
 
@@ -354,13 +381,6 @@ Qed.
 
 
 (* ------------------------------------------------------------- phase lists *)
-Lemma all_some_map_in {A B} (F : A -> option B) (h : A -> B) l :
-  (forall x, In x l -> F x = Some (h x)) -> all_some (map F l) = Some (map h l).
-Proof.
-  induction l as [|a l IH]; intros H; [reflexivity|]. simpl. rewrite (H a) by now left.
-  rewrite IH; [reflexivity|]. intros; apply H; now right.
-Qed.
-
 Lemma phl_rt (phs : list (Z * phase (T:=T))) :
   StronglySorted Z.lt (map fst phs) -> Forall wf_phase (map snd phs) ->
   match rd (phaselist2dict phs) with RD d => dict2phaselist ccanon restruct d | _ => None end = Some phs.
@@ -370,7 +390,9 @@ Proof.
   2:{ rewrite map_map. cbn [fst]. rewrite <- (map_map fst zstr). apply Injective_map_NoDup; [|exact Hnd].
       intros a b. apply zstr_inj. }
   2:{ intros k _ []. }
-  cbn [app rd]. rewrite map_map. cbn [fst snd].
+  cbn [List.app]. rewrite rd_PD_nn.
+  2:{ clear. induction phs as [|a l IH]; [reflexivity|]. exact IH. }
+  rewrite map_map. cbn [fst snd].
   set (K := map (fun ip : Z * phase (T:=T) => (zstr (fst ip), ip)) phs).
   replace (map (fun x : Z * phase => (zstr (fst x), rd (phase2dict (snd x)))) phs)
     with (map (fun kv : string * (Z * phase (T:=T)) => (fst kv, rd (phase2dict (snd (snd kv))))) K)
